@@ -130,6 +130,49 @@ M3 = {
  "C20E": ("C20", "HypAttributes.CounterpartyID formats the domain as a signed 32-bit number", "Hyperlane domain >= 2^31"),
  "C20F": ("C20", "ValidateCounterpartyID validates a TrimSpace'd copy, callers keep the raw string", "counterparty id with leading/trailing white space (\"5 \", \" 5\", \"5\\n\")"),
 }
+# round 4: free choice of code site, trigger kinds not used before
+M4 = {
+ "C01G": ("C01", "GetICS20PacketData decodes with encoding/json instead of the transfer codec: data followed by more bytes is 'not ICS-20' (pass-through sentinel)", "orbiter packet whose data has non-white-space bytes after the JSON object (ICS-20 and blockibc ignore them)"),
+ "C01H": ("C01", "Forwarder.HandlePacket recovers controller panics into a local err (no named result): a panic becomes success", "a panic inside a bridge module during forwarding"),
+ "C02G": ("C02", "same shape as C01B (independently written): memo without the orbiter key returns the pass-through sentinel", "receiver = orbiter and a one-key JSON memo other than 'orbiter'"),
+ "C02H": ("C02", "fee bound GTE -> GT together with TransferAttributes.Validate accepting a zero destination amount", "fees equal to the amount on a Hyperlane route (the warp module accepts a zero amount)"),
+ "C03G": ("C03", "same shape as C16C (independently written): RecoverNativeDenom error wrapped as the pass-through sentinel", "orbiter packet with a token that is not a returning native coin"),
+ "C03H": ("C03", "merged condition in the fee controller returns the nil err when fees >= amount: the fee step is skipped silently", "fee total at or above the amount"),
+ "C04G": ("C04", "64-bit fast path in ComputeFeeAmount: A*bps computed in uint64 wraps", "A <= 2^64-1 and A*bps >= 2^64 (10^18 at 30 bps)"),
+ "C04H": ("C04", "FeeInfo.Validate decodes TrimSpace(recipient); the use site decodes the raw string and ignores the error", "fee recipient = valid address padded with white space: the fee goes to the empty address"),
+ "C05G": ("C05", "same shape as C02D / C16F: denom check skipped for synthetic warp tokens", "synthetic warp token (cannot exist in the deployment under test)"),
+ "C05H": ("C05", "internal recipient decoded with bech32.DecodeAndConvert (any prefix) and re-encoded for MsgSend", "internal recipient with a valid foreign prefix (cosmos1..., osmo1...)"),
+ "C06G": ("C06", "same shape as C02E / C05E: Hyperlane amount reduced by a same-denom max fee", "Hyperlane payload with positive max_fee in the transferred denom"),
+ "C06H": ("C06", "same shape as C15E: distinct-id check with slices.Compact on unsorted ids", "[FEE, SWAP, FEE]"),
+ "C07G": ("C07", "defer/recover over the whole of OnRecvPacket turns panics into error acknowledgements, also on the pass-through path", "packet not for the orbiter on which the wrapped application panics (ICS-20 escrow accounting underflow)"),
+ "C07H": ("C07", "ParsePacket parses the memo before the receiver check and treats any parseable payload as an orbiter packet", "transfer to a normal account whose memo is a valid orbiter payload"),
+ "C08G": ("C08", "blank batch entries are dropped; the empty list then means the whole protocol", "Pause/UnpauseCrossChains with [\"\"] or [\"\", \"7\"]"),
+ "C08H": ("C08", "isInteger rewritten with ParseInt(…, 32): domains >= 2^31 are not identifiers any more", "CCTP / Hyperlane domain >= 2^31 in a pause message, query or transfer"),
+ "C09G": ("C09", "dispatcher skips actions whose attributes encode to zero bytes", "ACTION_FEE paused and a fee action without entries (fees_info [] / absent / null)"),
+ "C09H": ("C09", "executor looks the controller up before the pause check; dispatcher swallows ErrNotFound from actions", "payload with ACTION_SWAP (no controller wired), paused or not"),
+ "C10G": ("C10", "RequireAuthority returns ErrInvalidAddress for blank signers; executor handlers only act on errors.Is(err, ErrUnauthorized)", "MsgPauseAction / MsgUnpauseAction with an empty or white-space signer"),
+ "C10H": ("C10", "forwarder message server resolves the CCTP controller once at construction (before the application injects controllers)", "authority-signed MsgReplaceDepositForBurn in the real application"),
+ "C11G": ("C11", "dust sweep gated by IsSendEnabledCoins", "sends of the transferred coin disabled in the bank, dust present, CCTP / Hyperlane route"),
+ "C11H": ("C11", "in-memory 'cleared at height' memo per denomination in the adapter", "second orbiter packet of a denomination at the same height with dust present (deposited in between, or restored by a failed packet)"),
+ "C12G": ("C12", "BuildDenomDispatchedAmounts refuses destination > source before the same-denom branch; UpdateStats error is swallowed", "denomination-changing action that returns more units than it took"),
+ "C12H": ("C12", "denom lower-cased (and trimmed) in the amounts storage key", "two denominations differing in letter case on one route, or any denomination with upper-case letters"),
+ "C13G": ("C13", "same shape as C17A / C20B: ParseCrossChainID with strings.Split", "internal counterparty containing ':' (genesis only)"),
+ "C13H": ("C13", "direct amounts lookup decides existence from the counts collection (keyed by route only)", "used route queried for a denomination never dispatched on it"),
+ "C14G": ("C14", "simapp/app.yaml: dust collector removed from module_account_permissions", "dust of the packet's denomination on the orbiter account: the sweep panics"),
+ "C14H": ("C14", "Hyperlane custom hook id only bounded from above", "custom_hook_id of 1..31 bytes: slice-to-array conversion panics"),
+ "C15G": ("C15", "oneof guard ignores members whose value is null (jsonpb still installs them)", "FeeInfo naming both members, one of them null"),
+ "C15H": ("C15", "same shape as C19F: oneof guard without the camelCase names", "basisPoints + amount"),
+ "C16G": ("C16", "same shape as C04C: fixed fees shrink the base of later basis-point fees", "[fixed, bps] fee list"),
+ "C16H": ("C16", "same shape as C01A: balance precondition Equal -> not less than", "fee whose recipient is the orbiter account"),
+ "C17G": ("C17", "GenesisState.Validate skips a nil dispatcher section; InitGenesis does not", "genesis document without dispatcher_genesis (or null)"),
+ "C17H": ("C17", "executor genesis duplicate check with slices.Compact on the unsorted list", "paused_action_ids [FEE, SWAP, FEE]"),
+ "C18G": ("C18", "size measured with utf8.RuneCount instead of len", "limit > 0 and an oversized payload made of valid multi-byte UTF-8 text"),
+ "C18H": ("C18", "AdaptPacket drops the passthrough payload of CCTP forwardings before the size check", "oversized passthrough on a CCTP route"),
+ "C19G": ("C19", "ActionIDs / ProtocolIDs queries delete entry 0 from the process-wide generated enum tables; Validate consults the table first", "node that served the query, then a packet with protocol_id / action id 0: another (unregistered) error is committed"),
+ "C19H": ("C19", "statistics update skipped when the block time is more than an hour behind the wall clock", "the same block executed live and replayed later"),
+ "C20G": ("C20", "PauseCrossChains ignores ErrAlreadySet from the batch loop (which stops at the first failure)", "batch in which an id paused before precedes new ids"),
+ "C20H": ("C20", "same shape as C08B: pauseCrossChains is a silent no-op while the protocol is paused", "pause protocol, pause ids, unpause protocol, transfer"),
+}
 def fired(path):
     out, kinds = [], {}
     if os.path.exists(path):
@@ -138,7 +181,7 @@ def fired(path):
             if m and m.group(2) == "1":
                 out.append(m.group(1)); kinds[m.group(1)] = m.group(3).strip()
     return out, kinds
-for mid, (prop, change, needs) in list(M2.items()) + list(M3.items()):
+for mid, (prop, change, needs) in list(M2.items()) + list(M3.items()) + list(M4.items()):
     first, _ = fired(f"/verif/seeded/{mid}/result_first.txt")
     M[mid] = (prop, change, needs, first)
 for mid, (prop, change, needs, first) in sorted(M.items()):
@@ -160,7 +203,7 @@ for mid, (prop, change, needs, first) in sorted(M.items()):
         "written_by": "fresh sub-agent given only the property text and a scratch worktree (nothing from /verif)",
         "confirmed": "tools/verify_mutant.sh in the scratch worktree: git apply ok; go build ./... (root and simapp) ok; go test -vet=off -count=1 ./... passes with the change; demonstration test passes on the clean tree and fails with the change",
         "ran": "tools/run_mutant.sh (git -C /repo apply, bin/check <all 20> quick, git -C /repo checkout -- .)" if mid[-1] in "AB" else "tools/run_mutant_lab.sh: the change applied to a scratch checkout of /repo HEAD wired to a copy of /verif (tools/mutlab.sh), bin/check <all 20> quick there, checkout restored",
-        "round": {"A": 1, "B": 1, "C": 2, "D": 2}.get(mid[-1], 3),
+        "round": {"A": 1, "B": 1, "C": 2, "D": 2, "E": 3, "F": 3}.get(mid[-1], 4),
         "detected_by_first_round": first,
         "detected_by_now": caught,
         "violation_classes_now": kinds,
